@@ -13,13 +13,13 @@ from httpfam import HttpImpl, compare_http, penc
 from httpdrv import parse_multistatus
 
 AUDIT = "Audit/C18.lean"
-MODULE = "Xandikos.Theorems.C18"
+MODULE = "Xandikos.Theorems.C18Resolve"
 DAV = "{DAV:}"
 CALNS = "urn:ietf:params:xml:ns:caldav"
 CARDNS = "urn:ietf:params:xml:ns:carddav"
 
 FRONTENDS = ("wsgi", "wsgi-module", "aiohttp", "main")
-ROUTE_PREFIXES = ("/", "/dav/", "/a/b/")
+ROUTE_PREFIXES = ("/", "/dav/", "/a/b/", "/dav", "/a/b")     # the last two: written without the trailing slash
 PRINCIPALS = ("/user/", "/user", "/users/joe/", "/users/joe", "/org/unit/ann/", "/a b/é/", "/p#1/q?2/", "/x;w/y=z&1/")
 # one entry per start of the server: D = --defaults, A = --autocreate only, N = neither flag
 START_SEQUENCES = (("D",), ("D", "D"), ("D", "D", "D", "D"), ("A",), ("A", "A"), ("A", "D"), ("D", "A", "D"),
@@ -155,6 +155,7 @@ class Walk:
     def wellknown(self):
         if self.impl.frontend == "wsgi":
             return self.impl.prefix     # the bare WSGI callable: no redirector in front of it
+        start = None
         for wk in ("/.well-known/caldav", "/.well-known/carddav"):
             r = self.srv.request("GET", wk)
             loc = r.header("Location")
@@ -164,7 +165,9 @@ class Walk:
             t = self.follow(wk, loc)
             if t is None or t.rstrip("/") != self.base:
                 self.bad("C18:well-known-redirects-elsewhere", f"{wk} redirects to {loc!r}, the DAV root is {self.impl.prefix!r}")
-        return self.impl.prefix
+            elif start is None:
+                start = t           # the client goes on from where it was sent, exactly as written
+        return start or self.impl.prefix
 
 
 def snapshot(impl, targets):
@@ -375,6 +378,9 @@ def run(chk):
                 picked.append(c)
                 seen |= keys
         combos = picked[:40]
+        for extra in (("main", "/dav", "/user/", ("D", "D")), ("aiohttp", "/a/b", "/user", ("D",))):
+            if extra not in combos:
+                combos.append(extra)
     pre = [(fe, "/dav/" if i % 2 else "/", "/user/", sq) for i, fe in enumerate(FRONTENDS)
            for sq in ((("D", "D"),) if quick else (("D", "D"), ("A", "D"), ("D", "N", "D")))]
     for (fe, pf, pr, sq) in pre:
